@@ -1,0 +1,41 @@
+//go:build verif
+
+package target
+
+import (
+	"sync"
+
+	"github.com/openconfig/gnmi/proto/gnmi"
+	gtarget "github.com/openconfig/gnmic/pkg/target"
+	"github.com/openconfig/gnmic/pkg/types"
+
+	"github.com/sdcio/data-server/pkg/config"
+	schemaClient "github.com/sdcio/data-server/pkg/datastore/clients/schema"
+	"github.com/sdcio/data-server/pkg/datastore/target/netconf"
+)
+
+// VerifNewNCTarget builds the real NETCONF target around an injected netconf.Driver.
+func VerifNewNCTarget(name string, cfg *config.SBI, scb schemaClient.SchemaClientBound, d netconf.Driver) Target {
+	return &ncTarget{
+		name:             name,
+		m:                new(sync.Mutex),
+		schemaClient:     scb,
+		sbiConfig:        cfg,
+		xml2sdcpbAdapter: netconf.NewXML2sdcpbConfigAdapter(scb),
+		driver:           d,
+	}
+}
+
+// VerifNewGNMITarget builds the real gNMI target around an injected gnmi.GNMIClient.
+func VerifNewGNMITarget(name string, cfg *config.SBI, c gnmi.GNMIClient, encodings ...gnmi.Encoding) Target {
+	gt := &gnmiTarget{
+		target:    gtarget.NewTarget(&types.TargetConfig{Name: name}),
+		encodings: make(map[gnmi.Encoding]struct{}),
+		cfg:       cfg,
+	}
+	gt.target.Client = c
+	for _, e := range encodings {
+		gt.encodings[e] = struct{}{}
+	}
+	return gt
+}
